@@ -1,10 +1,142 @@
 /-
-C03 — only justified work is re-executed, for the core engine model (`Model/EngineCore.lean`: input,
-normal and external-input keys; ordered reads and unordered read groups).
-The `log` field of the state records every executor invocation (`execute` / `executeExt` append the
-key, `refresh` appends every external key it re-runs).
+C03 — only justified work is re-executed.
+
+PART 1 (namespace `Qbice.CoreFw`): the extended core engine model (all five kinds, the repaired
+design; `Model/EngineCore.lean`, second half).  The `log` field of the state records every executor
+invocation.  Proved for programs WITHOUT PROJECTION NODES (`NoProj p`); the statement for all five
+kinds is `C03_exec_justified_full_statement`: there a third reason for an execution exists — a
+projection re-executed by the backward projection of a firewall / projection below it (finding
+F13's looseness: the stored value of that callee changed at some point since the projection's last
+run, or — `f1r` — its firewall set did; it need not differ from the value the projection observed).
+
+PART 2 (namespace `Qbice.Core`): the same theorems for the firewall-free core model, unchanged.
 -/
+import QbiceVerif.Lemmas.EngineCoreFw13
 import QbiceVerif.Lemmas.EngineCoreEx
+namespace Qbice.CoreFw
+open Qbice.Core (Prog Err Write SetRes Op OpOut Ref Sat)
+
+/-- the statement for all five kinds, exactly as the engine behaves: in a state reached by a history,
+    every executor invocation of a user query is (1) a first computation, or (2) the node recorded a
+    dependency whose from-scratch value is no longer the observed one, or (3) the node is a PROJECTION
+    that recorded a firewall / projection callee whose backward projection was pending when the query
+    began or became pending during it (its stored value, or its firewall set, changed) -/
+def C03_exec_justified_full_statement : Prop :=
+  ∀ (p : Program), WF p → ∀ (ops : List Op) (outs : List OpOut) (s0 : St),
+    runOps p ops {} = .ok (outs, s0) →
+    ∀ (k fuel : Nat) (v : Val) (s' : St), k < fuel →
+      query p fuel .user k { s0 with log := [] } = .ok (v, s') →
+      ∀ x, x ∈ s'.log → s0.nodes x = none ∨
+        (∃ n d o, s0.nodes x = some n ∧ (d, o) ∈ n.deps ∧ cur p s0 d ≠ some o) ∨
+        (∃ n f o, s0.nodes x = some n ∧ n.kind = .projection ∧ (f, o) ∈ n.deps ∧
+          (hasPending s0 f = true ∨ ∃ nf nf', s0.nodes f = some nf ∧ s'.nodes f = some nf' ∧
+            (nf'.value ≠ nf.value ∨ nf'.tfc ≠ nf.tfc)))
+
+/-- "an executor is re-run only if the key was never computed or one of the dependencies it read in
+    its previous run now has a different value": every key appended to the log by a successful query
+    of the user either has no node in the start state, or its node recorded a dependency `(d, o)`
+    whose from-scratch value on the committed inputs is no longer `o` — firewalls included: a
+    firewall whose recomputation returns the stored value lets nothing above it run.
+    PARTIAL: programs without projection nodes. -/
+theorem core_exec_justified_partial {p : Program} (wf : WF p) (np : NoProj p) {s : St} (inv : Inv p s)
+    {k fuel : Nat} (hk : k < fuel) {v : Val} {s' : St} (h : query p fuel .user k s = .ok (v, s')) :
+    ∃ new, s'.log = s.log ++ new ∧
+      ∀ x, x ∈ new → s.nodes x = none ∨
+        ∃ n d o, s.nodes x = some n ∧ (d, o) ∈ n.deps ∧ cur p s d ≠ some o := by
+  obtain ⟨_, f, _⟩ := (query_spec wf np hk inv).ok h
+  obtain ⟨new, h1, _, h3, _⟩ := f.log
+  exact ⟨new, h1, fun x hx => (h3 x hx).1.2⟩
+
+/-- "at most one execution per key between two input sessions": the keys executed by a query are
+    pairwise distinct, none of them was verified in the current epoch before, and all of them are
+    verified afterwards.  PARTIAL: programs without projection nodes. -/
+theorem core_exec_once_partial {p : Program} (wf : WF p) (np : NoProj p) {s : St} (inv : Inv p s)
+    {k fuel : Nat} (hk : k < fuel) {v : Val} {s' : St} (h : query p fuel .user k s = .ok (v, s')) :
+    ∃ new, s'.log = s.log ++ new ∧ new.Nodup ∧
+      ∀ x, x ∈ new → (¬ ∃ n, s.nodes x = some n ∧ n.lastVerified = s.epoch) ∧
+        ∃ n', s'.nodes x = some n' ∧ n'.lastVerified = s'.epoch := by
+  obtain ⟨_, f, _⟩ := (query_spec wf np hk inv).ok h
+  obtain ⟨new, h1, h2, h3, _⟩ := f.log
+  exact ⟨new, h1, h2, fun x hx => ⟨(h3 x hx).1.1, (h3 x hx).2⟩⟩
+
+/-- "an external-input executor runs on first demand and under `refresh`, never otherwise".
+    PARTIAL (first half): programs without projection nodes. -/
+theorem core_external_only_on_demand_or_refresh_partial {p : Program} (wf : WF p) (np : NoProj p)
+    {s : St} (inv : Inv p s) :
+    (∀ {k fuel : Nat}, k < fuel → ∀ {v : Val} {s' : St}, query p fuel .user k s = .ok (v, s') →
+      ∃ new, s'.log = s.log ++ new ∧
+        ∀ x d, x ∈ new → p[x]? = some d → d.kind = .external → s.nodes x = none) ∧
+    (∀ {ws : List Write} {rs : List SetRes} {s' : St}, session p ws s = .ok (rs, s') →
+      ∃ new, s'.log = s.log ++ new ∧
+        ∀ x, x ∈ new → Write.refresh ∈ ws ∧ ∃ n, s.nodes x = some n ∧ n.kind = .external) := by
+  refine ⟨?_, ?_⟩
+  · intro k fuel hk v s' h
+    obtain ⟨_, f, _⟩ := (query_spec wf np hk inv).ok h
+    obtain ⟨new, h1, _, h3, _⟩ := f.log
+    refine ⟨new, h1, ?_⟩
+    intro x d hx hp hd
+    rcases (h3 x hx).1.2 with h0 | ⟨n, dd, o, hn, hm, _⟩
+    · exact h0
+    · obtain ⟨d', hp', hk', hleaf⟩ := inv.kind x n hn
+      rw [hp] at hp'; cases hp'
+      rw [(hleaf (Or.inr (by rw [← hk', hd]))).1] at hm
+      cases hm
+  · intro ws rs s' h
+    obtain ⟨_, _, _, _, _, _, hl⟩ := session_spec inv h
+    exact hl
+
+/-- "`refresh` re-runs the executor of every external key computed so far" -/
+theorem core_refresh_reexecutes_all_externals {p : Program} {s : St} {rs : List SetRes} {s' : St}
+    (h : session p [.refresh] s = .ok (rs, s')) :
+    rs = [.refreshed] ∧ s'.log = s.log ++ (List.range p.length).filter (isExtNode s) := by
+  simp only [session, applySets, refreshAll, List.nil_append, Except.ok.injEq, Prod.mk.injEq] at h
+  obtain ⟨h1, h2⟩ := h
+  subst h1; subst h2
+  exact ⟨rfl, rfl⟩
+
+/-- non-vacuity: the firewall diamond after a session that the firewall absorbs: only the firewall
+    runs (justified by its changed input), nothing above it; after a session that changes it,
+    everything above runs -/
+example : WF exF ∧ NoProj exF ∧ Inv exF exFS ∧ Inv exF exFU ∧
+    (query exF (fuelFor exF) .user 5 { exFS with log := [] }).toOption.map (·.2.log) = some [2] ∧
+    (query exF (fuelFor exF) .user 5 { exFU with log := [] }).toOption.map (·.2.log) = some [2, 3, 4, 5] :=
+  ⟨exF_wf, exF_noProj, exFS_inv, exFU_inv, by decide, by decide⟩
+
+/-- the same over any number of rounds run within one epoch: all executions are of distinct keys
+    and each is justified with respect to the state before the first round.
+    PARTIAL: programs without projection nodes. -/
+theorem core_rounds_exec_once_partial {p : Program} (wf : WF p) (np : NoProj p) {s : St} (inv : Inv p s)
+    {kss : List (List Key)} {outs : List (List Val)} {s' : St}
+    (h : runRounds p kss s = .ok (outs, s')) :
+    ∃ new, s'.log = s.log ++ new ∧ new.Nodup ∧
+      ∀ x, x ∈ new → (¬ ∃ n, s.nodes x = some n ∧ n.lastVerified = s.epoch) ∧
+        (s.nodes x = none ∨ ∃ n d o, s.nodes x = some n ∧ (d, o) ∈ n.deps ∧ cur p s d ≠ some o) := by
+  obtain ⟨_, _, f⟩ := (runRounds_spec wf np kss s inv).ok h
+  obtain ⟨new, h1, h2, h3, _⟩ := f.log
+  exact ⟨new, h1, h2, fun x hx => (h3 x hx).1⟩
+
+example : Inv exF exFU ∧
+    (runRounds exF [[5, 4], [3, 5, 5]] { exFU with log := [] }).toOption.map (·.2.log) = some [2, 3, 4, 5] :=
+  ⟨exFU_inv, by decide⟩
+
+/-- "re-querying a verified key executes nothing": the state (hence the log) is unchanged — for all
+    five kinds, also for a firewall with a pending backward projection (the user does not perform it). -/
+theorem core_requery_executes_nothing {p : Program} {s : St} {k : Key} {n : Node}
+    (hn : s.nodes k = some n) (hv : n.lastVerified = s.epoch) {fuel : Nat} {v : Val} {s' : St}
+    (h : query p fuel .user k s = .ok (v, s')) : s' = s ∧ v = n.value := by
+  cases fuel with
+  | zero => simp [query, queryU, repairTfc, queryQ, hn, hv] at h
+  | succ f =>
+    rw [query_verified hn hv f] at h
+    cases h; exact ⟨rfl, rfl⟩
+
+example : (exFT.nodes 5).map (·.lastVerified) = some exFT.epoch ∧
+    (query exF (fuelFor exF) .user 5 exFT).toOption.map (·.1) = some 16 := ⟨by decide, by decide⟩
+
+end Qbice.CoreFw
+
+-- ====================================================================== PART 2: firewall-free model
+
 namespace Qbice.Core
 
 /-- "an executor is re-run only if the key was never computed or one of the dependencies it read in
